@@ -196,6 +196,23 @@ fn c06(seed: u64, tier: &str, thorough: bool) -> CheckPlan {
     for id in corpus_ids(derive(seed, "c06corpus", 0), if thorough { usize::MAX } else { 80 }) {
         jobs.push(job("C06", "corpus", derive(seed, "c06corpus", 1), tier, json!({"script": id, "max_points": if thorough { 150 } else { 20 }})));
     }
+    // every documented function as a carrier (its callbacks do work), and with an error in each argument position
+    let (doc_calls, _, _) = crate::docsig::calls();
+    let mut doc_idx: Vec<usize> = (0..doc_calls.len()).collect();
+    if !thorough {
+        // all calls that take a callback, plus a seeded third of the rest
+        let mut rest: Vec<usize> = doc_idx.iter().cloned().filter(|i| !doc_calls[*i].has_callback).collect();
+        rng.shuffle(&mut rest);
+        rest.truncate(rest.len() / 3);
+        doc_idx = doc_idx.into_iter().filter(|i| doc_calls[*i].has_callback).chain(rest.into_iter()).collect();
+        doc_idx.sort();
+    }
+    for i in doc_idx {
+        jobs.push(job("C06", "doc-carrier", derive(seed, "c06doc", i as u64), tier, json!({"index": i, "max_points": if thorough { 80 } else { 16 }})));
+    }
+    for part in 0..16 {
+        jobs.push(job("C06", "doc-errors", seed, tier, json!({"part": part, "parts": 16})));
+    }
     jobs.push(job("C06", "errors", seed, tier, json!({})));
     jobs.push(job("C06", "callback-errors", seed, tier, json!({})));
     CheckPlan {
@@ -217,7 +234,7 @@ fn c06(seed: u64, tier: &str, thorough: bool) -> CheckPlan {
         ],
         opts: SupOpts::default(),
         required_probes: vec!["trip_size".into(), "trip_calls".into(), "trip_depth".into(), "trip_recursion".into(), "trip_search".into(), "trip_time".into(), "trip_writer".into(),
-            "rerun_after_violation_succeeded".into(), "eintr_transparent".into(), "short_write_transparent".into(), "error_cases".into(), "callback_error_cases".into()],
+            "rerun_after_violation_succeeded".into(), "eintr_transparent".into(), "short_write_transparent".into(), "error_cases".into(), "callback_error_cases".into(), "doc_error_cases".into()],
         exhaustive: false,
         extra: json!({"carriers": n_car, "catchers": n_cat}),
     }
@@ -279,6 +296,17 @@ fn c10(seed: u64, tier: &str, thorough: bool) -> CheckPlan {
     // (b) bounded liveness
     for (name, _) in crate::checks::c10::FIXED {
         jobs.push(job("C10", "fixed", seed, tier, json!({"name": name})));
+    }
+    // entries whose work the search and call budgets alone must bound: again with a size limit far out of reach
+    for (name, _) in crate::checks::c10::FIXED {
+        if !crate::checks::c10::SIZE_BOUNDED.contains(name) {
+            jobs.push(job("C10", "fixed", seed, tier, json!({"name": name, "nosize": true})));
+        }
+    }
+    // every documented function with adversarial arguments
+    let parts = if thorough { 256 } else { 64 };
+    for part in 0..parts {
+        jobs.push(job("C10", "doc-adversarial", derive(seed, "c10docadv", part), tier, json!({"part": part, "parts": parts, "pairs": if thorough { 300 } else { 2 }})));
     }
     let n = if thorough { 4000 } else { 120 };
     for i in 0..n {
@@ -413,6 +441,9 @@ fn c19(seed: u64, tier: &str, thorough: bool) -> CheckPlan {
                 json!({"len": len, "max_points": if thorough { 400 } else { 60 }})));
         }
     }
+    for r in 0..(if thorough { 200 } else { 24 }) {
+        jobs.push(job("C19", "seq-search", derive(seed, "c19seqsearch", r as u64), tier, json!({})));
+    }
     jobs.push(job("C19", "coherence", seed, tier, json!({})));
     CheckPlan {
         property: "C19".into(),
@@ -431,7 +462,7 @@ fn c19(seed: u64, tier: &str, thorough: bool) -> CheckPlan {
             "memory-safety of the unsafe merge/heap code on failure paths is observed through the accounting model (a lost or duplicated Rc changes the deallocation multiset) and crashes, not through a sanitizer".into(),
         ],
         opts: SupOpts::default(),
-        required_probes: vec!["reference_compared".into(), "comparator_error_value_midway".into(), "violation_inside_comparator".into(), "rerun_after_interrupted_sort_matches_reference".into(), "coherence_relations_checked".into(), "ordered_pair_failure_reached".into()],
+        required_probes: vec!["reference_compared".into(), "comparator_error_value_midway".into(), "violation_inside_comparator".into(), "rerun_after_interrupted_sort_matches_reference".into(), "coherence_relations_checked".into(), "ordered_pair_failure_reached".into(), "sequence_comparisons_compared".into()],
         exhaustive: false,
         extra: json!({}),
     }
